@@ -187,3 +187,353 @@ fn c16_archive_name_total() {
     wit!(n == 0);
     core::mem::forget(id);
 }
+
+// ---------------------------------------------------------------------------------------------
+// With core::slice::memchr::{memchr, memrchr} replaced by their naive byte loops (stubs.rs) the REAL
+// ChunkIdentifier::sequence (str::split('-').nth(2) + parse::<usize>) is within reach.
+// ---------------------------------------------------------------------------------------------
+
+/// Every three-digit sequence field 000..=999 parses back to its number, with the type letter and
+/// prefix, on the real parser.
+#[kani::proof]
+#[kani::unwind(24)]
+#[kani::stub(alloc::fmt::format, crate::stubs::fmt_format)]
+#[kani::stub(core::slice::memchr::memchr, crate::stubs::memchr_naive)]
+#[kani::stub(core::slice::memchr::memrchr, crate::stubs::memrchr_naive)]
+fn c16_sequence_digits() {
+    let (d, n) = any_digits();
+    let id = chunk_id(d, b'I', 50, None);
+    assert!(id.sequence() == Some(n), "C16: sequence does not parse back");
+    wit!(n == 55);
+    wit!(n == 0);
+    wit!(n == 999);
+    core::mem::forget(id);
+}
+
+/// Any three ASCII bytes in the sequence field: the parser returns (never panics) and yields the
+/// number exactly when the field is all digits (a '+' sign is accepted by usize::from_str, a '-'
+/// splits the field; both are checked against an independent reading of the same bytes).
+#[kani::proof]
+#[kani::unwind(24)]
+#[kani::stub(alloc::fmt::format, crate::stubs::fmt_format)]
+#[kani::stub(core::slice::memchr::memchr, crate::stubs::memchr_naive)]
+#[kani::stub(core::slice::memchr::memrchr, crate::stubs::memrchr_naive)]
+fn c16_sequence_field_ascii() {
+    let d: [u8; 3] = kani::any();
+    kani::assume(d[0] < 0x80 && d[1] < 0x80 && d[2] < 0x80);
+    let id = chunk_id(d, b'I', 50, None);
+    let got = id.sequence();
+    let dig = |c: u8| c >= b'0' && c <= b'9';
+    let val = |c: u8| (c - b'0') as usize;
+    // third dash-separated field = bytes of d up to the first '-'
+    let want: Option<usize> = if d[0] == b'-' {
+        None // empty field
+    } else if d[1] == b'-' {
+        if dig(d[0]) { Some(val(d[0])) } else { None }
+    } else if d[2] == b'-' {
+        if dig(d[0]) && dig(d[1]) {
+            Some(val(d[0]) * 10 + val(d[1]))
+        } else if d[0] == b'+' && dig(d[1]) {
+            Some(val(d[1]))
+        } else {
+            None
+        }
+    } else if dig(d[0]) && dig(d[1]) && dig(d[2]) {
+        Some(val(d[0]) * 100 + val(d[1]) * 10 + val(d[2]))
+    } else if d[0] == b'+' && dig(d[1]) && dig(d[2]) {
+        Some(val(d[1]) * 10 + val(d[2]))
+    } else {
+        None
+    };
+    assert!(got == want, "C16: sequence field parsed to something other than its digits");
+    wit!(got == Some(7));
+    wit!(got.is_none());
+    core::mem::forget(id);
+}
+
+/// Arbitrary chunk names (0..=24 bytes, ASCII with one two-byte character anywhere): the sequence
+/// and type parsers return without panicking.
+#[kani::proof]
+#[kani::unwind(28)]
+#[kani::stub(alloc::fmt::format, crate::stubs::fmt_format)]
+#[kani::stub(core::slice::memchr::memchr, crate::stubs::memchr_naive)]
+#[kani::stub(core::slice::memchr::memrchr, crate::stubs::memrchr_naive)]
+fn c16_chunk_name_total() {
+    let mut b: [u8; 24] = kani::any();
+    let n: usize = kani::any();
+    kani::assume(n <= 24);
+    let k: usize = kani::any();
+    let multibyte: bool = kani::any();
+    let mut i = 0;
+    while i < 24 {
+        b[i] &= 0x7f;
+        i += 1;
+    }
+    if multibyte {
+        kani::assume(k < 24 && k + 1 < n);
+        b[k] = 0xC3;
+        b[k + 1] = 0xA9;
+    }
+    let s = unsafe { String::from_utf8_unchecked(b[..n].to_vec()) };
+    let id = ChunkIdentifier::new(String::from("KTLX"), VolumeIndex::new(50), s, None);
+    let seq = id.sequence();
+    let ty = id.chunk_type();
+    if n == 0 {
+        assert!(seq.is_none() && ty.is_none(), "C16: empty name parses to something");
+    }
+    if let Some(t) = ty {
+        let last = b[n - 1];
+        assert!((t == ChunkType::Start) == (last == b'S') && (t == ChunkType::End) == (last == b'E') && (t == ChunkType::Intermediate) == (last == b'I'), "C16: type letter");
+    }
+    wit!(n == 0);
+    wit!(n == 17 && seq.is_none());
+    wit!(multibyte && k == 18 && n == 24);
+    wit!(seq.is_some() && n == 24);
+    core::mem::forget(id);
+}
+
+/// Successor on the REAL parser: every three-digit sequence x every volume 1..=999.  Below 55 the
+/// successor stays in the volume (its name goes through core::fmt, stubbed: not checked here), from
+/// 55 on it is the next volume in rotation with 999 wrapping to 1.
+#[kani::proof]
+#[kani::unwind(24)]
+#[kani::stub(alloc::fmt::format, crate::stubs::fmt_format)]
+#[kani::stub(core::slice::memchr::memchr, crate::stubs::memchr_naive)]
+#[kani::stub(core::slice::memchr::memrchr, crate::stubs::memrchr_naive)]
+fn c16_successor_real_parser() {
+    let (d, n) = any_digits();
+    let v: usize = kani::any();
+    kani::assume(v >= 1 && v <= 999);
+    let id = chunk_id(d, b'I', v, None);
+    match id.next_chunk() {
+        Some(NextChunk::Sequence(next)) => {
+            assert!(n < 55, "C16: a sequence at or beyond 55 must move to the next volume");
+            assert!(next.volume().as_number() == v && next.site().as_bytes() == b"KTLX", "C16: successor below 55 keeps volume and site");
+            core::mem::forget(next);
+        }
+        Some(NextChunk::Volume(nv)) => {
+            assert!(n >= 55, "C16: a sequence below 55 must stay in its volume");
+            let want = if v == 999 { 1 } else { v + 1 };
+            assert!(nv.as_number() == want, "C16: wrong next volume in rotation");
+        }
+        None => panic!("C16: a parsable sequence has a successor"),
+    }
+    wit!(n == 54);
+    wit!(n == 55 && v == 999);
+    wit!(n == 55 && v == 998);
+    core::mem::forget(id);
+}
+
+/// Truncated / garbled chunk names (a symbolic length or fully free content ran out of 16-30 GB): the
+/// concrete prefix "20240813-123330-" followed by T free ASCII bytes (T = 0..=5: names of 16..=21 bytes,
+/// i.e. every truncation point inside the sequence field and the type letter), optionally with one
+/// two-byte character at tail position K, goes through the real sequence and type parsers without a
+/// panic, and the type is read off the last character.
+fn chunk_name_tail<const T: usize, const K: usize>() {
+    let mut b = [0u8; 21];
+    let pre = *b"20240813-123330-";
+    let mut i = 0;
+    while i < 16 {
+        b[i] = pre[i];
+        i += 1;
+    }
+    let t: [u8; 5] = kani::any();
+    let mut i = 0;
+    while i < T {
+        b[16 + i] = t[i] & 0x7f;
+        i += 1;
+    }
+    if K + 1 < T {
+        b[16 + K] = 0xC3;
+        b[16 + K + 1] = 0xA9;
+    }
+    let n = 16 + T;
+    let s = unsafe { String::from_utf8_unchecked(b[..n].to_vec()) };
+    let id = ChunkIdentifier::new(String::from("KTLX"), VolumeIndex::new(50), s, None);
+    let seq = id.sequence();
+    let ty = id.chunk_type();
+    if let Some(t) = ty {
+        let last = b[n - 1];
+        assert!((t == ChunkType::Start) == (last == b'S') && (t == ChunkType::End) == (last == b'E') && (t == ChunkType::Intermediate) == (last == b'I'), "C16: type letter");
+    }
+    if T == 0 {
+        assert!(seq.is_none(), "C16: an empty sequence field parses to a number");
+    }
+    wit!(seq.is_none());
+    core::mem::forget(id);
+}
+
+macro_rules! name_tail_harness {
+    ($name:ident, $t:expr, $k:expr) => {
+        #[kani::proof]
+        #[kani::unwind(28)]
+        #[kani::stub(alloc::fmt::format, crate::stubs::fmt_format)]
+        #[kani::stub(core::slice::memchr::memchr, crate::stubs::memchr_naive)]
+        #[kani::stub(core::slice::memchr::memrchr, crate::stubs::memrchr_naive)]
+        fn $name() {
+            chunk_name_tail::<$t, $k>();
+        }
+    };
+}
+name_tail_harness!(c16_chunk_name_tail0, 0, 99);
+name_tail_harness!(c16_chunk_name_tail1, 1, 99);
+name_tail_harness!(c16_chunk_name_tail2, 2, 99);
+name_tail_harness!(c16_chunk_name_tail3, 3, 99);
+name_tail_harness!(c16_chunk_name_tail4, 4, 99);
+name_tail_harness!(c16_chunk_name_tail5, 5, 99);
+name_tail_harness!(c16_chunk_name_tail5_mb2, 5, 2);
+name_tail_harness!(c16_chunk_name_tail5_mb3, 5, 3);
+name_tail_harness!(c16_chunk_name_tail3_mb1, 3, 1);
+
+// ---------------------------------------------------------------------------------------------
+// Archive names, positive clause: for SSSSYYYYMMDD_HHMMSS + suffix the parsers must be handed
+// exactly the date field (bytes 4..12) and the time field (bytes 13..19).  chrono's strftime
+// interpreter is outside reach, so the two parse functions are replaced by recorders that accept
+// exactly "8 digits" / "6 digits" (what chrono accepts for the constrained digits below) and note
+// what they were given; the value of the instant is then chrono's business (C08 covers the
+// arithmetic), the slicing is the repository's.
+// ---------------------------------------------------------------------------------------------
+static mut SEEN_DATE: Option<[u8; 8]> = None;
+static mut SEEN_TIME: Option<[u8; 6]> = None;
+
+fn all_digits(b: &[u8]) -> bool {
+    let mut i = 0;
+    while i < b.len() {
+        if b[i] < b'0' || b[i] > b'9' {
+            return false;
+        }
+        i += 1;
+    }
+    true
+}
+
+pub fn rec_date_parse(s: &str, fmt: &str) -> chrono::ParseResult<chrono::NaiveDate> {
+    assert!(fmt.as_bytes() == b"%Y%m%d", "C16: date format string");
+    let b = s.as_bytes();
+    if b.len() == 8 && all_digits(b) {
+        unsafe {
+            SEEN_DATE = Some([b[0], b[1], b[2], b[3], b[4], b[5], b[6], b[7]]);
+        }
+        match chrono::NaiveDate::from_ymd_opt(2024, 8, 13) {
+            Some(d) => Ok(d),
+            None => panic!("harness"),
+        }
+    } else {
+        match chrono::NaiveDateTime::parse_from_str("", "") {
+            Err(e) => Err(e),
+            Ok(_) => panic!("harness: empty input parsed"),
+        }
+    }
+}
+
+pub fn rec_time_parse(s: &str, fmt: &str) -> chrono::ParseResult<chrono::NaiveTime> {
+    assert!(fmt.as_bytes() == b"%H%M%S", "C16: time format string");
+    let b = s.as_bytes();
+    if b.len() == 6 && all_digits(b) {
+        unsafe {
+            SEEN_TIME = Some([b[0], b[1], b[2], b[3], b[4], b[5]]);
+        }
+        match chrono::NaiveTime::from_hms_opt(12, 33, 30) {
+            Some(t) => Ok(t),
+            None => panic!("harness"),
+        }
+    } else {
+        match chrono::NaiveDateTime::parse_from_str("", "") {
+            Err(e) => Err(e),
+            Ok(_) => panic!("harness: empty input parsed"),
+        }
+    }
+}
+
+#[kani::proof]
+#[kani::unwind(28)]
+#[kani::stub(chrono::NaiveDate::parse_from_str, rec_date_parse)]
+#[kani::stub(chrono::NaiveTime::parse_from_str, rec_time_parse)]
+#[kani::stub(core::slice::memchr::memchr, crate::stubs::memchr_naive)]
+#[kani::stub(core::slice::memchr::memrchr, crate::stubs::memrchr_naive)]
+fn c16_archive_name_wellformed() {
+    let mut b: [u8; 24] = kani::any();
+    let n: usize = kani::any();
+    kani::assume(n >= 19 && n <= 24);
+    let mut i = 0;
+    while i < 24 {
+        b[i] &= 0x7f;
+        i += 1;
+    }
+    // site: four ASCII letters or digits; date and time: digits of a valid calendar date / time of day
+    let mut i = 0;
+    while i < 4 {
+        kani::assume((b[i] >= b'A' && b[i] <= b'Z') || (b[i] >= b'0' && b[i] <= b'9'));
+        i += 1;
+    }
+    kani::assume(all_digits(&b[4..12]) && all_digits(&b[13..19]));
+    let two = |h: u8, l: u8| (h - b'0') * 10 + (l - b'0');
+    kani::assume(two(b[8], b[9]) >= 1 && two(b[8], b[9]) <= 12 && two(b[10], b[11]) >= 1 && two(b[10], b[11]) <= 28);
+    kani::assume(two(b[13], b[14]) <= 23 && two(b[15], b[16]) <= 59 && two(b[17], b[18]) <= 59);
+    b[12] = b'_';
+    let s = unsafe { String::from_utf8_unchecked(b[..n].to_vec()) };
+    let id = Identifier::new(s);
+    match id.site() {
+        Some(st) => {
+            let sb = st.as_bytes();
+            assert!(sb.len() == 4 && sb[0] == b[0] && sb[1] == b[1] && sb[2] == b[2] && sb[3] == b[3], "C16: site is the first four bytes");
+        }
+        None => panic!("C16: site missing on a well-formed archive name"),
+    }
+    let dt = id.date_time();
+    assert!(dt.is_some(), "C16: date-time not recovered from a well-formed archive name (any suffix)");
+    let (sd, st) = unsafe { (SEEN_DATE, SEEN_TIME) };
+    match (sd, st) {
+        (Some(d), Some(t)) => {
+            let mut i = 0;
+            while i < 8 {
+                assert!(d[i] == b[4 + i], "C16: date parsed from something other than bytes 4..12");
+                i += 1;
+            }
+            let mut i = 0;
+            while i < 6 {
+                assert!(t[i] == b[13 + i], "C16: time parsed from something other than bytes 13..19");
+                i += 1;
+            }
+        }
+        _ => panic!("C16: date or time parser not reached on a well-formed archive name"),
+    }
+    wit!(n == 19);
+    wit!(n == 24 && b[19] == b'_');
+    wit!(n == 22 && b[19] == b'.');
+    wit!(n == 22 && b[19] == b'V');
+    core::mem::forget(id);
+}
+
+/// Successor NAME text through the real core::fmt (no fmt stub): for every three-digit sequence below
+/// 55 the successor's name is prefix + "-" + (sequence + 1, zero-padded to three digits) + "-" + type
+/// letter (E exactly at 55), and it parses back to sequence + 1 on the real parser.
+#[kani::proof]
+#[kani::unwind(24)]
+#[kani::stub(core::slice::memchr::memchr, crate::stubs::memchr_naive)]
+#[kani::stub(core::slice::memchr::memrchr, crate::stubs::memrchr_naive)]
+fn c16_successor_name_text() {
+    let (d, n) = any_digits();
+    kani::assume(n < 55);
+    let id = chunk_id(d, b'I', 50, None);
+    match id.next_chunk() {
+        Some(NextChunk::Sequence(next)) => {
+            let nb = next.name().as_bytes();
+            assert!(nb.len() == 21, "C16: successor name length");
+            let pre = b"20240813-123330-";
+            let mut i = 0;
+            while i < 16 {
+                assert!(nb[i] == pre[i], "C16: successor keeps the name prefix");
+                i += 1;
+            }
+            let m = n + 1;
+            assert!(nb[16] == b'0' + (m / 100) as u8 && nb[17] == b'0' + ((m / 10) % 10) as u8 && nb[18] == b'0' + (m % 10) as u8, "C16: successor sequence digits");
+            assert!(nb[19] == b'-' && nb[20] == if m == 55 { b'E' } else { b'I' }, "C16: successor type letter");
+            core::mem::forget(next);
+        }
+        _ => panic!("C16: below 55 the successor is the next sequence"),
+    }
+    wit!(n == 54);
+    wit!(n == 0);
+    core::mem::forget(id);
+}
